@@ -44,6 +44,15 @@ def run(tier):
         P.oracle = dict(P.oracle, sub1x0=['ok'] if k % 3 else ['err'])
         ops = [dict(at=a, op='dup', method='on_action_complete', wf_action=True) for a in range(8 + k % 4, 60, 5)]
         jobs.append(dict(prog=P, scheduler=('default', 'legacy')[k % 2], policy=pol, seed=k + 1, label='dup_sub_result', ops=ops))
+    # a task is rerun by the operator; its start requests (the original one and the one sent by the rerun) are redelivered while
+    # the new attempt is running
+    fs = dict(gen.failing_shapes())
+    for nm in ('diamond_j-1_aerr', 'linear_handled', 'rev_diamond_err'):
+        P = fs[nm]
+        tname = [t for t, oc in P.oracle.items() if isinstance(oc, list) and 'err' in oc][0]
+        for k in range(8):
+            ops = [dict(at=300, op='rerun', reset=bool(k % 2), pick=0), dict(rel=2 + k % 4, op='dup', method='start_task', task='r/%s#0' % tname, pick=k // 4)]
+            jobs.append(dict(prog=P, scheduler=('default', 'legacy')[k % 2], policy=engrun.POLICIES[1:][k % 7], seed=k + 1, label='dup_rerun_start_' + nm, ops=ops, max_steps=900))
     from harness.checks import c06_executor
     return ec.run_property(PID, tier, jobs,
                            'generated programs with up to 2 messages (action results, start-task requests, start requests, run-action '
